@@ -69,12 +69,30 @@ class HarnessError(Exception):
     pass
 
 
-class Ev(events.Event):
+class _MaybeEqual:
+    """Events are identified by their `id` attribute here, never by comparison.  Under the input's "eqev" flag all
+    events of this run compare (and hash) EQUAL, the way value-like events (named tuples, dataclasses, strs) do: the
+    library has no business comparing the events it carries, so two equal events are still two events."""
+    ALL_EQUAL = False
+
+    def __eq__(self, other):
+        if _MaybeEqual.ALL_EQUAL and isinstance(other, _MaybeEqual):
+            return True
+        return self is other
+
+    def __ne__(self, other):
+        return not self.__eq__(other)
+
+    def __hash__(self):
+        return 0 if _MaybeEqual.ALL_EQUAL else id(self) >> 4
+
+
+class Ev(_MaybeEqual, events.Event):
     def __init__(self, id):
         self.id = id
 
 
-class SEv(events.ScheduledEvent):
+class SEv(_MaybeEqual, events.ScheduledEvent):
     pending_id = None
 
     def __init__(self, when):
@@ -447,7 +465,11 @@ MODE_N = {"curtsies": 0, "curses": 1, "bytes": 2}
 
 
 def run(inp):
-    return drive(inp)
+    _MaybeEqual.ALL_EQUAL = bool(inp.get("eqev"))
+    try:
+        return drive(inp)
+    finally:
+        _MaybeEqual.ALL_EQUAL = False
 
 
 def _l(xs):
@@ -941,6 +963,13 @@ def _late_trigger_cases():
 
 
 def generate(rng, tier):
+    for k, c in enumerate(_generate(rng, tier)):
+        if k % 3 == 1:
+            c["eqev"] = True          # value-like events: all events of the run compare equal
+        yield c
+
+
+def _generate(rng, tier):
     yield from _late_trigger_cases()
     n = 2500 if tier == "thorough" else 330
     for i in range(n):
